@@ -8,7 +8,7 @@ Spec functions follow the property statements / the protocol comments, not the c
 """
 from pyvc.dsl import (aes_cbc_dec, aes_cbc_enc, aes_ecb_dec, aes_ecb_enc, contract, events, fields, final, fold, implies,
                       lemma, md5, old, opaque, pkcs7, pre, same_object, sha256, xor_bytes)
-from msmart.lan import Security, _Packet, _LanProtocolV3, ProtocolError, AuthenticationError
+from msmart.lan import Security, _Packet, _LanProtocol, _LanProtocolV3, ProtocolError, AuthenticationError
 
 LAN = "msmart.lan."
 
@@ -200,33 +200,43 @@ def v3_data_packet(proto, ctr, data):
 
 contract(V3 + ".read",
          params={"self": "obj:" + V3, "timeout": "int[0,60]"},
-         rtype="bytes",
+         rtype="bytes", cancellation=True,
          modifies=["self._queue"],
          raises={LAN + "ProtocolError": {}, "builtins.TimeoutError": {"when": "timeout != 0"},
-                 "asyncio.QueueEmpty": {"when": "timeout == 0"}},
+                 "asyncio.QueueEmpty": {"when": "timeout == 0"}, "asyncio.CancelledError": {"when": "timeout != 0"}},
          notes="C09: whatever was queued, reading it ends in decoded bytes, a protocol error or a timeout")
 
 contract(LAN + "_LanProtocol.read",
          params={"self": "obj:" + LAN + "_LanProtocol", "timeout": "int[0,60]"},
-         rtype="bytes",
+         rtype="bytes", cancellation=True,
          modifies=["self._queue"],
-         raises={"builtins.TimeoutError": {"when": "timeout != 0"}, "asyncio.QueueEmpty": {"when": "timeout == 0"}})
+         raises={"builtins.TimeoutError": {"when": "timeout != 0"}, "asyncio.QueueEmpty": {"when": "timeout == 0"},
+                 "asyncio.CancelledError": {"when": "timeout != 0"}})
 
 contract(V3 + ".authenticate",
          params={"self": "obj:" + V3, "token": "opt:bytes", "key": "opt:bytes[32]"},
          requires=["self._transport is not None", "0 <= self._packet_id <= 0xFFF", "implies(token is not None, len(token) <= 65000)"],
          modifies=["self._local_key", "self._local_key_expiration", "self._packet_id", "self._queue"],
          post_let={"T": "events('tx')"},
-         raises={LAN + "AuthenticationError": {"post": {
+         emits={"tx": "hs_request(old(self._packet_id), token)"},
+         raises={LAN + "AuthenticationError": {"emits": {"tx": "hs_request(old(self._packet_id), token if token is not None else bytes())"}, "post": {
+                     "counter_in_range": "0 <= self._packet_id <= 0xFFF",
                      "session_stays_unauthenticated": "self._local_key == old(self._local_key) and same_object(self._local_key_expiration, old(self._local_key_expiration))",
                      "only_handshake_requests_sent": "len(events('tx')) <= 1 and implies(len(events('tx')) == 1, events('tx')[0] == hs_request(old(self._packet_id), token))"}},
-                 "builtins.TimeoutError": {"post": {
+                 "builtins.TimeoutError": {"emits": {"tx": "hs_request(old(self._packet_id), token)"}, "post": {
+                     "counter_in_range": "0 <= self._packet_id <= 0xFFF",
                      "session_stays_unauthenticated": "self._local_key == old(self._local_key) and same_object(self._local_key_expiration, old(self._local_key_expiration))",
-                     "only_handshake_requests_sent": "len(events('tx')) == 1 and events('tx')[0] == hs_request(old(self._packet_id), token)"}}},
-         ensures={"credentials_present": "token is not None and key is not None and len(token) > 0",
+                     "only_handshake_requests_sent": "len(events('tx')) == 1 and events('tx')[0] == hs_request(old(self._packet_id), token)"}},
+                 "asyncio.CancelledError": {"emits": {"tx": "hs_request(old(self._packet_id), token)"}, "post": {
+                     "counter_in_range": "0 <= self._packet_id <= 0xFFF",
+                     "session_stays_unauthenticated": "self._local_key == old(self._local_key) and same_object(self._local_key_expiration, old(self._local_key_expiration))"}}},
+         cancellation=True,
+         ensures={"counter_in_range": "0 <= self._packet_id <= 0xFFF",
+                  "credentials_present": "token is not None and key is not None and len(token) > 0",
                   "one_handshake_request": "len(T) == 1 and T[0] == hs_request(old(self._packet_id), token)",
                   "session_key_set": "self._local_key is not None and len(self._local_key) == 32",
-                  "expires_in_12h": "self._local_key_expiration is not None"})
+                  "expires_in_12h": "self._local_key_expiration is not None",
+                  "authenticated_on_return": "self.authenticated"})
 
 
 # ---- C04: V3 stream reassembly ------------------------------------------------------------------------------------------
@@ -277,3 +287,73 @@ contract(V3 + ".data_received",
              "step_ensures": {
                  "delivers_exactly_the_next_packet_once": "len(events('queued')) == pre(len(events('queued'))) + 1 and events('queued')[-1] == S[pre(st):pre(en)]",
              }}})
+
+
+# ---- the LAN object: C07 session discipline, C08 retry/recovery, C09 containment ---------------------------------------------
+LANC = LAN + "LAN"
+
+fields(LANC, _ip="str", _port="int", _device_id="int[0,18446744073709551615]", _token="opt:bytes", _key="opt:bytes[32]",
+       _protocol_version="int", _protocol="union:none|obj:" + LAN + "_LanProtocol|obj:" + V3,
+       _connection_expiration="opt:ext:datetime", _max_connection_lifetime="opt:ext:timedelta")
+
+
+def proto_ok(p):
+    """class invariant of a protocol object held by a LAN object (Sess, DESIGN 4-C07): it was connected
+    (create_connection called connection_made) and its packet counter fits the 12 bit field"""
+    return p is None or (p._transport is not None and (not isinstance(p, _LanProtocolV3) or 0 <= p._packet_id <= 0xFFF))
+
+
+def lan_inv(lan):
+    return proto_ok(lan._protocol) and (lan._token is None or len(lan._token) <= 65000)
+
+
+contract(LANC + "._read",
+         params={"self": "obj:" + LANC, "timeout": "int[0,60]"},
+         bind_kwargs=["timeout"],
+         requires=["self._protocol is not None", "lan_inv(self)"],
+         rtype="bytes",
+         modifies=["self._protocol._queue"],
+         raises={LAN + "ProtocolError": {}, "builtins.TimeoutError": {"when": "timeout != 0"},
+                 "asyncio.QueueEmpty": {"when": "timeout == 0"}, "asyncio.CancelledError": {"when": "timeout != 0"}})
+
+contract(LANC + "._read_available",
+         params={"self": "obj:" + LANC},
+         requires=["self._protocol is not None", "lan_inv(self)"],
+         yields="bytes",
+         modifies=["self._protocol._queue"],
+         raises={LAN + "ProtocolError": {}},
+         loops={"0": {"modifies": ["self._protocol._queue"]}},
+         notes="async generator: yields decoded frames until the queue is empty; only QueueEmpty is swallowed")
+
+
+def as_bytes(x):
+    return bytes.fromhex(x) if isinstance(x, str) else x
+
+
+contract(LANC + ".authenticate",
+         params={"self": "obj:" + LANC, "token": "union:none|bytes", "key": "union:none|bytes[32]", "retries": "int[1,8]"},
+         requires=["lan_inv(self)", "implies(token is not None, len(token) <= 65000)"],
+         cancellation=True,
+         modifies=["self._token", "self._key", "self._protocol", "self._protocol_version", "self._connection_expiration", "self._protocol.*"],
+         let={"tok": "self._token if (token is None or key is None) else token", "k": "self._key if (token is None or key is None) else key",
+              "old_retries": "retries"},
+         post_let={"T": "events('tx')"},
+         raises={LAN + "ProtocolError": {"post": {"stored_credentials_not_replaced": "self._token == old(self._token) and self._key == old(self._key)",
+                                                 "recoverable": "lan_inv(self)",
+                                                 "only_handshake_requests_sent": "all_handshakes(events('tx'), tok)"}},
+                 "builtins.TimeoutError": {"post": {"stored_credentials_not_replaced": "self._token == old(self._token) and self._key == old(self._key)",
+                                                    "recoverable": "lan_inv(self)",
+                                                    "only_handshake_requests_sent": "all_handshakes(events('tx'), tok)"}},
+                 "asyncio.CancelledError": {"post": {"recoverable": "lan_inv(self)"}}},
+         ensures={"credentials_stored": "self._token == tok and self._key == k",
+                  "v3_session": "isinstance(self._protocol, _LanProtocolV3) and self._protocol._local_key is not None and lan_inv(self)",
+                  "only_handshake_requests_sent": "all_handshakes(T, tok)",
+                  "at_least_one_at_most_retries": "1 <= len(T) <= retries"},
+         loops={"0": {"ghost_init": {"n": "0"}, "havoc": {"n": "int[0,8]"},
+                      "modifies": ["self._protocol._local_key", "self._protocol._local_key_expiration", "self._protocol._packet_id", "self._protocol._queue"],
+                      "invariant": ["n == old_retries - retries", "1 <= retries", "lan_inv(self)", "isinstance(self._protocol, _LanProtocolV3)"],
+                      "ghost_step": {"n": "pre(n) + 1"}}})
+
+
+def all_handshakes(T, token):
+    return all(len(p) >= 8 and p[:2] == b"\x83\x70" and (p[5] & 0xF) == 0 and p[8:] == token for p in T)
